@@ -95,7 +95,7 @@ def judge_encoding(er, ec, v, seg, row, crow, rec, case, path, subs=True):
         return False
     tec, segs = er7ref.tokenize_message(er, ec)
     line = [f for n, f in segs if n == seg]
-    if len(line) != 1 or er7ref.leaves(line[0]) != expected_leaves(row, crow, subs):
+    if len(line) < 1 or er7ref.leaves(line[0]) != expected_leaves(row, crow, subs):
         rec.violation('shape-not-reproduced:%s' % path, case, {'segment': er.split('\r')[-1][:120],
                                                               'leaves': str(er7ref.leaves(line[0]) if line else None)[:200]})
         return False
@@ -125,7 +125,21 @@ def check_set(core, parser, v, ec, rec):
         # assignment by name parses ONE field (a repetition separator in it would be data): two repetitions = two calls
         setattr(s, row.name.lower(), rep_text(ec, crow, 1, subs))
         s.add_field(row.name).value = rep_text(ec, crow, 2, subs)
+        # a leaf holding the set's own delimiters (assigned through a datatype object, so nothing is split): they must
+        # come out escaped with THIS set, whatever sets were used before in the process
+        lib = tables.lib(v)
+        raw = 'q' + ec['FIELD'] + ec['COMPONENT'] + 'r'
+        esc = er7ref.ref_escape(raw, ec, er7ref.letters_for(v))
+        z = m.add_segment('ZZ9') if False else core.Segment('ZZ9', version=v)
+        m.add(z)
+        z.zz9_2 = 'k'
+        z.zz9_2[0].children.list[0].children.list[0].value = lib.BASE_DATATYPES['ST'](raw)
         er = m.to_er7()
+        zline = [l for l in er.split('\r') if l.startswith('ZZ9')]
+        if zline != ['ZZ9' + ec['FIELD'] * 2 + esc]:
+            rec.violation('delimiters-in-data-not-escaped-with-the-message-set', case, {'line': zline, 'want': esc})
+            return
+        rec.count('escaped_leaf_checks')
         if not judge_encoding(er, ec, v, seg, row, crow, rec, case, 'build', subs):
             return
         if m.encoding_chars != exp:
@@ -154,7 +168,9 @@ def check_set(core, parser, v, ec, rec):
     rec.evaluation((v, ec_tuple(ec), 'parse'))
     try:
         f = ec['FIELD']
-        text = structref.msh_line(v, 'ADT_A01', ec) + '\r' + seg + f * row.num + field_text(ec, crow, subs)
+        C = ec['COMPONENT']
+        text = structref.msh_line(v, 'ADT_A01', ec) + '\r' + seg + f * row.num + field_text(ec, crow, subs) + \
+            '\rZZ1' + f + 'z1' + C + 'z2' + ec['REPETITION'] + 'z3' + '\r' + seg + f * row.num + rep_text(ec, crow, 3, subs)
         for fg in (True, False):
             m3 = parser.parse_message(text, find_groups=fg)
             er3 = m3.to_er7()
@@ -184,9 +200,19 @@ def run_sets(spec, rec):
         rec.inconclusive_reason('no shape field in version %s' % v)
         return
     new = er7ref.vkey(v) >= (2, 7)
+    prev = None
     for i in range(spec['n']):
         ec = gen.delimiter_set(rng, v, with_truncation=(i % 2 == 0) if new else False)
         ec = {k: x for k, x in ec.items() if k not in ('SEGMENT', 'GROUP')}
+        if prev is not None and i % 3 == 1:
+            # the previous set with only the field separator changed / two roles exchanged (same process)
+            ec = dict(prev)
+            if i % 2:
+                ec['FIELD'] = rng.choice([c for c in '!$%*+;<=>?@' if c not in ec.values()])
+            else:
+                a, b = rng.sample(['FIELD', 'COMPONENT', 'SUBCOMPONENT', 'REPETITION', 'ESCAPE'], 2)
+                ec[a], ec[b] = ec[b], ec[a]
+        prev = ec
         check_set(core, parser, v, ec, rec)
         if i == 0:
             rec.sample({'version': v, 'ec': ''.join(x for x in ec_tuple(ec) if x)})
